@@ -78,14 +78,18 @@ fn gen(ch: &mut Ch, thorough: bool) -> Option<Case> {
     let entry = *ch.of(&Entry::BOTH);
     let raw = ch.flag();
     let stacked = ch.pick(4);
-    let extra = ch.pick(8);
+    let extra = ch.pick(9);
     if stacked >= 2 && entry == Entry::Derive {
         return None;
     }
-    if extra != 0 && (raw || stacked != 0 || flavour != (if matches!(extra, 4 | 5 | 7) { Flavour::GenericFm } else { Flavour::Fm }) || body.n == 0 || entry == Entry::Derive && !thorough) {
+    if extra != 0 && (raw || stacked != 0 || flavour != (if matches!(extra, 4 | 5 | 7 | 8) { Flavour::GenericFm } else { Flavour::Fm }) || body.n == 0 || entry == Entry::Derive && !thorough) {
         return None;
     }
     if !thorough && extra != 0 && !(body.n == 2) {
+        return None;
+    }
+    // 8: an additional last field `TagC<Self, T>` whose unary operators are conditional on T (unary traits only)
+    if extra == 8 && !matches!(op, OpKind::Unary(_)) {
         return None;
     }
     if raw && !(body.kind == SKind::Named && body.n == 2 && flavour == Flavour::Fm && entry == Entry::Attr && stacked == 0) {
@@ -165,7 +169,7 @@ fn build_inner(c: &Case, tier: &str) -> XCase {
     let noattrs = |_: usize, _: usize| Vec::new();
     let mut item = sh.item(match c.flavour { Flavour::GenericFm if c.extra == 4 => "<'a, T>", Flavour::GenericFm if c.extra == 5 => "<const K: usize, T>", Flavour::GenericFm if c.extra == 7 => "<T: Scale<Self>>", Flavour::GenericFm => "<T>", Flavour::AssocFm => "<T: HasA>", Flavour::Fm if is_n => "<const K: usize>", _ => "" }, &ty, &noattrs);
     // an additional last field that takes part in every operator without logging (Tag implements all forms)
-    let tag_ty = match c.extra { 3 => Some("::dxrt::probe::Tag<Self>"), 4 => Some("::dxrt::probe::Tag<&'a T>"), 5 => Some("::dxrt::probe::Tag<[u8; K]>"), _ => None };
+    let tag_ty = match c.extra { 3 => Some("::dxrt::probe::Tag<Self>"), 4 => Some("::dxrt::probe::Tag<&'a T>"), 5 => Some("::dxrt::probe::Tag<[u8; K]>"), 8 => Some("::dxrt::probe::TagC<Self, T>"), _ => None };
     if let (Some(t), Body::Struct(f)) = (tag_ty, &mut item.body) {
         match f {
             FieldsDef::Tuple(v) => v.push(FieldDef::tuple(t)),
@@ -177,7 +181,7 @@ fn build_inner(c: &Case, tier: &str) -> XCase {
         if tag_ty.is_none() {
             return ctor;
         }
-        let tag = "::dxrt::probe::Tag(::core::marker::PhantomData)";
+        let tag = if c.extra == 8 { "::dxrt::probe::TagC(::core::marker::PhantomData, ::core::marker::PhantomData)" } else { "::dxrt::probe::Tag(::core::marker::PhantomData)" };
         if let Some(p) = ctor.strip_suffix(" }") { format!("{p}, tag: {tag} }}") } else if let Some(p) = ctor.strip_suffix(')') { format!("{p}, {tag})") } else { ctor }
     };
     if c.extra == 2 {
@@ -291,9 +295,9 @@ fn build_inner(c: &Case, tier: &str) -> XCase {
     atoms.insert(format!("body={}", sh.describe()));
     atoms.insert(format!("raw={}", c.raw));
     atoms.insert(format!("stacked={}", c.stacked));
-    atoms.insert(format!("extra={}", ["none", "macro_rules-generated", "where-nested-Self", "last-field-Tag<Self>", "lifetime-'a-and-Tag<&'a T>", "const-parameter-declared-before-the-type-parameter", "field-type-mentions-only-a-const-parameter", "Self-in-an-inline-parameter-bound"][c.extra]));
+    atoms.insert(format!("extra={}", ["none", "macro_rules-generated", "where-nested-Self", "last-field-Tag<Self>", "lifetime-'a-and-Tag<&'a T>", "const-parameter-declared-before-the-type-parameter", "field-type-mentions-only-a-const-parameter", "Self-in-an-inline-parameter-bound", "last-field-TagC<Self,T>-conditional-on-T"][c.extra]));
     XCase {
-        text: format!("{} {}{}{} {}", c.entry.name(), ["", "stacked ", "stacked-qualified ", "stacked-absolute "][c.stacked], ["", "macro_rules-generated ", "", "", "", "", "", ""][c.extra], tr, item.print()),
+        text: format!("{} {}{}{} {}", c.entry.name(), ["", "stacked ", "stacked-qualified ", "stacked-absolute "][c.stacked], ["", "macro_rules-generated ", "", "", "", "", "", "", ""][c.extra], tr, item.print()),
         code: s,
         expected: exp,
         atoms,
